@@ -43,6 +43,9 @@ Record run_obs := mkRun {
 Record case := mkCase {
   c_paced : bool;            (* paced feed (fills deterministic) or plain MarketDataInMemory *)
   c_fatal : option N;        (* dataset position of the market event whose tick is fatal *)
+  c_fail : bool;             (* failing source: the market stream of ONE backtest of the case dies
+                                (panics: corrupt record) after part of the dataset; the others
+                                get healthy streams of the same shared source *)
   c_ds : list Z;             (* the dataset, as event codes *)
   c_intact : bool;           (* the one dataset Vec shared (Arc) by all backtests of the case is
                                 byte-for-byte what it was before the runs *)
@@ -123,9 +126,24 @@ Definition corr_positions (c : case) : bool :=
     (fold_right (fun r acc => if existsb (N.eqb (r_workers r)) acc then acc else r_workers r :: acc)
                 [] (c_runs c)).
 
+(** failing source: a run that came back as Err saw the delivered prefix and no Shutdown — in the
+    model the feed simply ends there ([FeedEnded]) *)
+Definition corr_run_failed_source (ds : list Z) (r : run_obs) : bool :=
+  let res := run (cstep None) 0%N (map lev_ev (r_log r)) in
+  stop_eqb (outcome res) FeedEnded &&
+  list_eqb ev_eqb (processed res) (map lev_ev (r_log r)) &&
+  (fix pre (l1 l2 : list Z) : bool :=
+     match l1, l2 with
+     | [], _ => true
+     | x :: t1, y :: t2 => Z.eqb x y && pre t1 t2
+     | _, [] => false
+     end) (market_codes (r_log r)) ds.
+
 Definition corr_b (c : case) : bool :=
   c_intact c &&     (* the model's dataset is a value: no run can change it *)
-  forallb (corr_run (c_fatal c) (c_ds c)) (c_runs c) &&
+  forallb (fun r => if c_fail c && N.eqb (r_outcome r) 1
+                    then corr_run_failed_source (c_ds c) r
+                    else corr_run (c_fatal c) (c_ds c) r) (c_runs c) &&
   (match c_runs c with [] => true | _ => corr_positions c end).
 
 (* ---- oracle ---------------------------------------------------------------------------- *)
@@ -157,6 +175,10 @@ Definition batches_complete (c : case) : bool :=
 Definition run_hard (c : case) (r : run_obs) : bool :=
   match c_fatal c with
   | None =>
+      (* failing source: an Err is fine (and is what the unchanged code returns, for the whole
+         batch too); an Ok summary is only acceptable from a fully fed engine, i.e. under the
+         ordinary conditions below *)
+      (c_fail c && N.eqb (r_outcome r) 1) ||
       N.eqb (r_outcome r) 0 && list_eqb Z.eqb (market_codes (r_log r)) (c_ds c) && r_sum_ok r &&
       N.eqb (r_pos_id r) (r_bt r) && r_clock_ok r && r_fills_ok r
   | Some _ =>
@@ -180,7 +202,8 @@ Definition same_as_alone (c : case) (r : run_obs) : bool :=
 Definition isolated_b (c : case) : bool :=
   match c_fatal c with
   | Some _ => true     (* the property promises nothing once the engine stopped on a fatal error *)
-  | None => forallb (same_as_alone c) (c_runs c)
+  | None => c_fail c   (* nor about the state of a run that was aborted with an error *)
+            || forallb (same_as_alone c) (c_runs c)
   end.
 
 Definition prop_b (c : case) : bool := hard_b c && isolated_b c.
